@@ -6,6 +6,7 @@ CONSTANTS
   StopOnDecodeError = TRUE
   CheckedDeadline = TRUE
   CheckedExtent = TRUE
+  SatWindow = TRUE
   WaitHasDeadline = FALSE
 INVARIANT Verdict
 POSTCONDITION Accepted
